@@ -235,9 +235,12 @@ def gen_cases(seed, tier, focus):
         r = random.Random(seed)
         if len(ex) > 2500:
             ex = r.sample(ex, 2500)
+    if tier != 'quick' and len(ex) > 30000:
+        # the exhaustive depth-3 space is several hundred thousand sequences: a seeded sample keeps memory bounded
+        ex = random.Random(seed + 1).sample(ex, 30000)
     cases += ex
     cases += md_pattern_scenarios() if focus == 'C13' or tier == 'thorough' else md_pattern_scenarios()[::7]
-    n_rand = (500 if tier == 'quick' else 20000)
+    n_rand = (500 if tier == 'quick' else 12000)
     for i in range(n_rand):
         cases.append(random_scenario(rng, rng.choice([1, 2, 2, 3]), rng.choice([3, 5, 8, 12]), rng.choice([4, 8, 15, 25])))
     return cases
